@@ -563,6 +563,7 @@ type StoreObs struct {
 	Deltas int   `json:"deltas"` // entries in the write set
 	Stored []int `json:"stored"` // canonical ids of all slabs in the view
 	Reach  []int `json:"reach"`  // canonical ids of standalone slabs reached from the roots
+	Dsum   string `json:"dsum"`  // fingerprint of the identifiers in the write set
 	Stale  []int `json:"stale"`  // canonical ids of slabs held in the read cache and NOT in the write set whose encoding differs from their register
 }
 
@@ -614,6 +615,16 @@ func (w *World) Observe() ([]RootObs, StoreObs) {
 	}
 	sort.Ints(so.Reach)
 	so.Stale = w.staleCacheEntries()
+	dk := []string{}
+	for id, s := range atree.VerifDeltas(w.St) {
+		if s == nil {
+			dk = append(dk, id.String()+"-")
+		} else {
+			dk = append(dk, id.String()+"+")
+		}
+	}
+	sort.Strings(dk)
+	so.Dsum = shortSum([]byte(strings.Join(dk, ",")))
 	return roots, so
 }
 
